@@ -283,6 +283,7 @@ class Processor:
                 , data=node_coord.node
                 , prefix="Processor::_apply_change:  ")
             self._apply_change(yaml_path, node_coord.node, value, **kwargs)
+            return
 
         if (isinstance(node_coord.node, list)
             and len(node_coord.node) > 0
